@@ -67,6 +67,13 @@ func NewMethodEvaluator(
 
 	p.SetLastEvaluatedT(evaluatedObjectT)
 
+	if instance == "self" && ctx.IsDefineStatic {
+		// (in a class method self is the class: completion offers class methods)
+		classT := base.MakeClass(ctx.GetClass())
+		classT.SetFrame(ctx.GetFrame())
+		p.SetSuggestTargetT(classT)
+	}
+
 	p.SetLastCallFrameDetails(
 		evaluatedObjectT.GetFrame(),
 		evaluatedObjectT.GetObjectClass(),
